@@ -267,10 +267,19 @@ fn run_case(dec: &str, class: &str, rng: &mut SmallRng) -> Vec<(String, Got)> {
                     }
                     v
                 }
+                // a complete, well-formed request under an auth-id stamped at the ends of the signed range and at the
+                // values whose distance from the server's clock does not fit it
+                "ExtremeTimestamp" => {
+                    let mut h = fixed.clone();
+                    h.extend_from_slice(&[1, 187, 1, 10, 0, 0, 1]);
+                    vec![with_fnv(h); 10]
+                }
                 _ => vec![],
             };
+            let n = now as i64;
+            let far = [i64::MIN, i64::MIN + 1, i64::MIN.wrapping_add(n), i64::MIN.wrapping_add(n - 1), i64::MIN.wrapping_add(n + 1), i64::MIN.wrapping_add(n + 120), -1, 0, i64::MAX - 1, i64::MAX];
             for (i, h) in headers.iter().enumerate() {
-                let aid = rv::auth_id(&ck, now as i64, rng.random(), false);
+                let aid = rv::auth_id(&ck, if class == "ExtremeTimestamp" { far[i % far.len()] } else { n }, rng.random(), false);
                 let mut wire = rv::seal_request_header(&ck, &aid, &rng.random(), h);
                 if class != "UnusualOptions" {
                     wire.extend_from_slice(&[0u8; 40]);
